@@ -131,6 +131,13 @@ func (t *T) str() string {
 		return "&" + arg(0) + "." + t.Aux
 	case "iaddr":
 		return "&" + arg(0) + "[" + arg(1) + "]"
+	case "typeconst":
+		return "type:" + t.Aux
+	case "constmap":
+		if t.Aux != "" {
+			return "global:" + t.Aux
+		}
+		return "table#" + strconv.Itoa(len(t.Elems)/2)
 	case "global":
 		return "global:" + t.Aux
 	case "gaddr":
@@ -254,8 +261,10 @@ type PXConfig struct {
 	MaxVisits    int
 	MaxPaths     int
 	LocalWrites  bool                       // writes into path-local buffers are (also) reported as write events
+	Bounds       bool                       // index and slice expressions are reported as events (P-BOUNDS)
 	MaxIndex     int                        // paths that touch element MaxIndex (or beyond) of a slice of unknown contents are not explored (0: no bound)
 	Opaque       func(f *ssa.Function) bool // do not inline; record a call event
+	Assume       []Lit                      // facts taken as given at entry (a case of a case split made by the rule)
 	SkipErrEdges bool                       // do not follow the failure edge of an error test
 	KeepEdge     func(l Lit) bool           // override: follow even if it is an error edge
 }
@@ -458,7 +467,12 @@ type pxRun struct {
 }
 
 // Paths enumerates the feasible paths of fn.
+// pxGlobalConst resolves a package-level variable of jen to the value of its read-only table
+// initialiser (pathx_globals.go); set by Paths.
+var pxGlobalConst func(name string) *T
+
 func (c *Ctx) Paths(fn *ssa.Function, cfg PXConfig) ([]*PXPath, bool) {
+	pxGlobalConst = c.globalConst
 	if cfg.MaxDepth == 0 {
 		cfg.MaxDepth = 3
 	}
@@ -471,6 +485,10 @@ func (c *Ctx) Paths(fn *ssa.Function, cfg PXConfig) ([]*PXPath, bool) {
 	r := &pxRun{c: c, cfg: cfg}
 	inst, objs := 0, 0
 	st := &pxState{facts: Facts{}, mem: map[string]*T{}, heap: map[string]*T{}, visits: map[string]int{}, inst: &inst, objs: &objs, terms: map[string]*T{}}
+	for _, l := range cfg.Assume {
+		st.facts[l.Atom] = l.Pol
+		st.order = append(st.order, l.Atom)
+	}
 	fr := &pxFrame{id: 0, fn: fn, env: map[ssa.Value]*T{}}
 	for i, p := range fn.Params {
 		name := fmt.Sprintf("p%d", i)
@@ -963,6 +981,21 @@ func termLits(t *T, pol bool) []Lit {
 			case ">=":
 				p = !p
 			}
+			// n < len(x) - k  is  n+k < len(x);  len(x) - k < n  is  len(x) < n+k
+			if r.Op == "binop" && r.Aux == "-" && len(r.A) == 2 && r.A[0].Op == "len" {
+				if k, ok := r.A[1].intVal(); ok {
+					if n, ok := l.intVal(); ok {
+						l, r = cInt(n+k), r.A[0]
+					}
+				}
+			}
+			if l.Op == "binop" && l.Aux == "-" && len(l.A) == 2 && l.A[0].Op == "len" {
+				if k, ok := l.A[1].intVal(); ok {
+					if n, ok := r.intVal(); ok {
+						l, r = l.A[0], cInt(n+k)
+					}
+				}
+			}
 			if n, ok := l.intVal(); ok && n == 0 && r.Op == "len" {
 				return []Lit{{"empty(" + r.A[0].String() + ")", !p}}
 			}
@@ -1032,16 +1065,56 @@ func (r *pxRun) eval(st *pxState, fr *pxFrame, v ssa.Value) *T {
 		return &T{Op: "faddr", A: []*T{r.val(st, fr, x.X)}, Aux: fieldName(x.X.Type(), x.Field), Typ: x.Type()}
 	case *ssa.IndexAddr:
 		base, idx := r.val(st, fr, x.X), r.val(st, fr, x.Index)
+		// an element of a tail x[lo:] is element lo+i of x
+		if base.Op == "slice" && len(base.A) == 3 && !base.HasEl {
+			if lo, ok := base.A[1].intVal(); ok {
+				if n, ok := idx.intVal(); ok {
+					base, idx = base.A[0], cInt(lo+n)
+				}
+			}
+		}
 		if n, ok := idx.intVal(); ok && r.cfg.MaxIndex > 0 && int(n) >= r.cfg.MaxIndex && !base.HasEl && base.Op != "alloc" && base.Op != "make" {
 			st.mem["#abort"] = cBool(true) // beyond the number of items this exploration looks at
+		}
+		if r.cfg.Bounds {
+			st.emit(Ev{Kind: "index", In: x, Within: fr.fn, Args: []*T{r.val(st, fr, x.X), r.val(st, fr, x.Index)}, Depth: fr.depth})
 		}
 		return &T{Op: "iaddr", A: []*T{base, idx}, Typ: x.Type()}
 	case *ssa.Field:
 		return fieldOfTerm(r.val(st, fr, x.X), fieldName(x.X.Type(), x.Field), x.Type())
 	case *ssa.Index:
+		if r.cfg.Bounds {
+			st.emit(Ev{Kind: "index", In: x, Within: fr.fn, Args: []*T{r.val(st, fr, x.X), r.val(st, fr, x.Index)}, Depth: fr.depth})
+		}
 		return indexTerm(r.val(st, fr, x.X), r.val(st, fr, x.Index), x.Type())
 	case *ssa.Lookup:
 		m, k := r.val(st, fr, x.X), r.val(st, fr, x.Index)
+		if r.cfg.Bounds {
+			if bt, ok := x.X.Type().Underlying().(*types.Basic); ok && bt.Info()&types.IsString != 0 {
+				st.emit(Ev{Kind: "index", In: x, Within: fr.fn, Args: []*T{m, k}, Depth: fr.depth})
+			}
+		}
+		if m.Op == "constmap" && (k.isConst() || k.Op == "typeconst") {
+			// a read-only table looked up with a key that is constant on this path
+			var elemT types.Type
+			if mt, ok := x.X.Type().Underlying().(*types.Map); ok {
+				elemT = mt.Elem()
+			}
+			var hit *T
+			for i := 0; i+1 < len(m.Elems); i += 2 {
+				if m.Elems[i].String() == k.String() {
+					hit = m.Elems[i+1]
+				}
+			}
+			val := hit
+			if val == nil {
+				val = zeroTerm(elemT)
+			}
+			if x.CommaOk {
+				return &T{Op: "tuple", A: []*T{val, cBool(hit != nil)}, Typ: x.Type()}
+			}
+			return val
+		}
 		if m.Op == "make" && isMapType(m.Typ) {
 			if v, ok := st.mapGet(m, k); ok {
 				if x.CommaOk {
@@ -1155,6 +1228,16 @@ func (r *pxRun) eval(st *pxState, fr *pxFrame, v ssa.Value) *T {
 		return val
 	case *ssa.Slice:
 		base := r.val(st, fr, x.X)
+		if r.cfg.Bounds {
+			var lo, hi *T
+			if x.Low != nil {
+				lo = r.val(st, fr, x.Low)
+			}
+			if x.High != nil {
+				hi = r.val(st, fr, x.High)
+			}
+			st.emit(Ev{Kind: "slice", In: x, Within: fr.fn, Args: []*T{base, lo, hi}, Depth: fr.depth})
+		}
 		// slice of a local array: capture its elements
 		if base.Op == "alloc" {
 			if arr, ok := x.X.Type().Underlying().(*types.Pointer).Elem().Underlying().(*types.Array); ok {
@@ -1411,6 +1494,14 @@ func fieldOfTerm(x *T, f string, typ types.Type) *T {
 }
 
 func indexTerm(x, i *T, typ types.Type) *T {
+	// an element of a tail x[lo:] (or x[lo:hi]) with constant lo is element lo+i of x
+	if x.Op == "slice" && len(x.A) == 3 && !x.HasEl {
+		if lo, ok := x.A[1].intVal(); ok {
+			if n, ok := i.intVal(); ok {
+				return indexTerm(x.A[0], cInt(lo+n), typ)
+			}
+		}
+	}
 	if x.HasEl {
 		if n, ok := i.intVal(); ok && int(n) < len(x.Elems) && n >= 0 {
 			return x.Elems[n]
@@ -1547,6 +1638,11 @@ func loadTerm(a *T, typ types.Type) *T {
 		}
 		return indexTerm(base, a.A[1], typ)
 	case "gaddr":
+		if pxGlobalConst != nil {
+			if t := pxGlobalConst(a.Aux); t != nil {
+				return t
+			}
+		}
 		return &T{Op: "global", Aux: a.Aux, Typ: typ}
 	}
 	return &T{Op: "deref", A: []*T{a}, Typ: typ}
@@ -1696,7 +1792,7 @@ func (r *pxRun) store(st *pxState, fr *pxFrame, a, v *T, in ssa.Instruction) {
 
 // ---- calls
 
-var pxPure = map[string]bool{"fmt.Sprintf": true, "fmt.Sprint": true, "fmt.Errorf": true, "errors.New": true, "fmt.Appendf": true, "fmt.Append": true}
+var pxPure = map[string]bool{"fmt.Sprintf": true, "fmt.Sprint": true, "fmt.Errorf": true, "errors.New": true, "fmt.Appendf": true, "fmt.Append": true, "reflect.TypeOf": true}
 
 func pxPureCallee(sc *ssa.Function) bool {
 	if sc == nil {
@@ -1742,6 +1838,18 @@ func (r *pxRun) call(st *pxState, fr *pxFrame, x *ssa.Call, k func(*pxState, *px
 			}
 			if n, ok := st.mem["#len:"+a.String()]; ok {
 				return bind(n)
+			}
+			// the length of a tail x[lo:] with constant lo is len(x) - lo
+			if a.Op == "slice" && len(a.A) == 3 && a.A[2].Op == "sym" {
+				if lo, ok := a.A[1].intVal(); ok && lo > 0 {
+					var base *T
+					if n, ok := st.mem["#len:"+a.A[0].String()]; ok {
+						base = n
+					} else {
+						base = &T{Op: "len", A: []*T{a.A[0]}, Typ: resTyp}
+					}
+					return bind(foldBin(token.SUB, base, cInt(lo), resTyp))
+				}
 			}
 			return bind(&T{Op: "len", A: []*T{a}, Typ: resTyp})
 		case "append":
@@ -1857,6 +1965,43 @@ func (r *pxRun) call(st *pxState, fr *pxFrame, x *ssa.Call, k func(*pxState, *px
 	inModule := callee.Blocks != nil && r.c.inModule(callee)
 	if !inModule {
 		// external
+		// reflect.TypeOf(x) where the path knows the dynamic type of x (from a type test, or as the
+		// case the rule assumed): that type; where it knows x to be none of the types it was tested
+		// for: a type that equals none of them
+		if name == "reflect.TypeOf" && len(args) == 1 {
+			as := args[0].String()
+			pos, neg := "", 0
+			for atom, pol := range st.facts {
+				if strings.HasPrefix(atom, "is<") && strings.HasSuffix(atom, ">("+as+")") {
+					if pol {
+						pos = atom[3 : len(atom)-len(">("+as+")")]
+					} else {
+						neg++
+					}
+				}
+			}
+			if pos != "" {
+				return bind(&T{Op: "typeconst", Aux: pos, Typ: resTyp})
+			}
+			if neg > 0 {
+				return bind(&T{Op: "typeconst", Aux: "?other(" + as + ")", Typ: resTyp})
+			}
+		}
+		// a buffer made by the library constructor is a private buffer like &bytes.Buffer{}: empty for
+		// a fresh zero-length slice (pre-sizing), otherwise starting with the given text
+		if (name == "bytes.NewBuffer" || name == "bytes.NewBufferString") && len(args) == 1 {
+			*st.objs++
+			nb := &T{Op: "alloc", Obj: *st.objs, Typ: resTyp, Aux: name}
+			init := args[0]
+			switch {
+			case init.Nil, init.Op == "make" && init.HasEl && len(init.Elems) == 0, init.Op == "elems" && init.HasEl && len(init.Elems) == 0:
+			default:
+				if sv, isS := init.strVal(); !isS || sv != "" {
+					st.bufAppend(nb, init)
+				}
+			}
+			return bind(nb)
+		}
 		wi, di, ok := extSink(x)
 		// draining a private buffer into a writer: (*bytes.Buffer).WriteTo(w), io.Copy(w, buf)
 		var drained *T
